@@ -14,8 +14,9 @@
 (*             visited node with more than one child becomes the head of a *)
 (*             block of its own;                                           *)
 (*   circuit = subcircuit(cone, block, modify_io=True), h marked output.   *)
-(* The blocks of all outputs are collected as distinct OBJECTS (two equal  *)
-(* blocks found under two outputs are two elements); a block is kept when  *)
+(* The blocks of all outputs are collected; a block found again under      *)
+(* another output (same head, same nodes) is the same block; a block is    *)
+(* kept when                                                               *)
 (* some node of it is internal to no OTHER block; kept blocks are stored   *)
 (* in a dict keyed by `block.outputs().pop()`, so of several blocks with   *)
 (* the same key one arbitrary survives.  SupergateResults(c) is the set of *)
@@ -51,7 +52,10 @@ SgBlocksOf(c, o) ==
       idom == [n \in N \ {o} |-> CHOOSE d \in dom[n] : dom[n] \ {d} = dom[d]]
       kids == [v \in N |-> {n \in N \ {o} : idom[n] = v}]
   IN {[o |-> o, h |-> h, sg |-> [SubcircuitModel(co, SgExpansion(kids, h), TRUE) EXCEPT !.out[h] = TRUE]] : h \in SgHeads(kids, {o}, o)}
-SgAllBlocks(c) == UNION {SgBlocksOf(c, o) : o \in ScOutputs(c)}
+\* equal blocks (same head, same node set, hence the same circuit) found under different outputs are ONE block (fix 8e4f98c;
+\* before it they were distinct objects and cancelled each other in the cover filter: SgAllBlocksOld)
+SgAllBlocksOld(c) == UNION {SgBlocksOf(c, o) : o \in ScOutputs(c)}
+SgAllBlocks(c) == {[o |-> "", h |-> b.h, sg |-> b.sg] : b \in SgAllBlocksOld(c)}
 SgInternalOf(sg) == sg.nodes \ ScInputs(sg)
 SgMinimal(c) == LET B == SgAllBlocks(c) IN
                 {b \in B : b.sg.nodes \ UNION {SgInternalOf(b2.sg) : b2 \in B \ {b}} # {}}
